@@ -3,7 +3,7 @@ Prelude of the Go → Lean translator (extract/trans.go): the Lean functions tha
 and Go's integer results are mapped to.  Part of the trusted mapping (DESIGN.md §9.6); core only, linked
 into the driver.
 -/
-import Apko.Model.Version
+import Apko.Model.Resolver
 
 namespace Apko.Trans
 
@@ -18,6 +18,30 @@ def cmpCompare (a b : Text) : Int := if a < b then -1 else if b < a then 1 else 
 
 /-- `CompareVersions` (its own tie is the statement-list fact `stmts_CompareVersions` of C03) -/
 def compareVersionsInt (a b : Version) : Int := ordInt (compareVersions a b)
+
+/-- one pass of a Go loop body over the loop-carried state `σ`: `return r`, `break`, or go on -/
+inductive Loop (ρ σ : Type) where
+  | ret (r : ρ)
+  | brk (s : σ)
+  | next (s : σ)
+
+/-- `for _, x := range l { body }` with loop-carried variables `σ`: `.inl r` = the function returned `r`
+from inside the loop, `.inr s` = the loop ended (or was left by `break`) with state `s` -/
+def forRange {α ρ σ : Type} : List α → σ → (σ → α → Loop ρ σ) → Sum ρ σ
+  | [], s, _ => .inr s
+  | x :: xs, s, f =>
+    match f s x with
+    | .ret r => .inl r
+    | .brk s' => .inr s'
+    | .next s' => forRange xs s' f
+
+/-- `filterOptions` of `filterPackages` after the functional options were applied -/
+structure FilterOpts where
+  allowPin : Text
+  preferPin : Text
+  version : Text
+  installed : Option Pkg
+  compare : Dep
 
 /-- what the translator emits for a function outside its subset (the fact is then reported as broken) -/
 def untranslatable {α : Type} [Inhabited α] (_why : String) : α := default
